@@ -182,7 +182,7 @@ def converge_fingerprint(case, verdict):
 # differences of a classified kind are recorded findings; the harness attaches the kind only under the conditions that
 # make a difference THAT finding (see classify / relabel* in harness/c01/converge.go)
 SOFT_KINDS = ("stale-san", "stale-mx", "stale-provider-unimported", "stale-sidecar-switches-service", "stale-dns-last-workload",
-              "stale-provider-service-exported-to-nobody", "stale-store-ahead")
+              "stale-provider-service-exported-to-nobody", "stale-store-ahead", "stale-own-endpoint-locality")
 # finding 7 (DNS ServiceEntry with workloadSelector loses its last workload) under its one fingerprint, whichever stream shows it
 DNS_LAST_WORKLOAD = "converge:stale-vs-cold-start:CDS:stale-dns-last-workload"
 # Finding 9: the LIMIT proved by ProtocolV3.store_ahead_breaks_convergence, on the real code. A history with hold / release
@@ -405,14 +405,14 @@ def unreproduced_is_verdict(ctx, fp, case, verdict, rerun):
     return again >= 2 or seen[fp] >= 3
 
 
-def prepare_converge(ctx, n, sweep=False, ambient=False, slice_n=0, corpus_part=None):
+def prepare_converge(ctx, n, sweep=False, ambient=False, slice_n=0, corpus_part=None, locality=False):
     """sweep=False: n random histories. sweep=True: every single-change history of the grammar (targeted search
     when a tie is broken; part of the thorough tier). ambient=True: histories incl. the ambient objects, with a waypoint
     proxy and a ztunnel-like delta client (PILOT_ENABLE_AMBIENT=true). corpus_part=(i, k): no generated histories - the
     i-th of k parts of the corpus (the parts run side by side). Every history is compared with a cold-started
     server after EVERY step (`coldeach`), not only at the end.  Returns the prepared job (cases generated, not yet run)."""
     import verif as V
-    name = "converge-sweep" if sweep else ("converge-ambient" if ambient else "converge")
+    name = "converge-sweep" if sweep else ("converge-ambient" if ambient else ("converge-locality" if locality else "converge"))
     st = {"cases": 0, "ops": 0, "agree": True}
     case_list = []
     if corpus_part is not None:
@@ -614,11 +614,17 @@ def run(ctx):
     # their processes run side by side with the table / proof / T-diff part below; their results are processed afterwards.
     jobs = [prepare_converge(ctx, 0, corpus_part=(0, 3)), prepare_converge(ctx, 0, corpus_part=(1, 3)),
             prepare_converge(ctx, 0, corpus_part=(2, 3)),
-            prepare_converge(ctx, ctx.n(18, 400)),
-            prepare_converge(ctx, ctx.n(8, 150), ambient=True),
-            prepare_rebuild(ctx, ctx.n(150, 4000))]
+            prepare_converge(ctx, ctx.n(16, 200)),
+            # histories over the objects that decide EDS content by locality (endpoint localities, localityLbSetting, outlier
+            # detection, root-namespace rules), mostly in bursts
+            prepare_converge(ctx, ctx.n(6, 80), locality=True),
+            prepare_converge(ctx, ctx.n(8, 60), ambient=True),
+            prepare_rebuild(ctx, ctx.n(150, 1500))]
     if ctx.quick():
         jobs.append(prepare_converge(ctx, -1, sweep=True, slice_n=12))
+    else:
+        # the whole single-change sweep, its three bases side by side
+        jobs += [prepare_converge(ctx, base, sweep=True) for base in (0, 1, 2)]
     servers = threading.Thread(target=execute_all, args=(ctx, jobs))
     servers.start()
     try:
@@ -634,7 +640,7 @@ def run(ctx):
     # the single-change sweep over three rich base meshes: whole in the thorough tier; base by base as the targeted search for
     # a failing input when a tie is broken (DESIGN "On break"), stopping at the first base that yields one
     for base in (0, 1, 2):
-        if not ctx.quick() or (tie_broken and not found()):
+        if ctx.quick() and tie_broken and not found():
             run_converge(ctx, base, sweep=True)
 
 
@@ -648,9 +654,9 @@ def model_part(ctx):
     n = ctx.n(3000, 60000)
     ctx.diff_stream("needs", n, oracle=oracle)
     # the narrowing of partial EDS pushes: real EdsGenerator.Generate vs Narrow.lean; oracle: a skipped cluster is unchanged
-    ctx.diff_stream("edsnarrow", ctx.n(250, 12000), oracle=oracle)
+    ctx.diff_stream("edsnarrow", ctx.n(250, 4000), oracle=oracle)
     # the end-to-end stream of harness/e2e (notes/E2E.md): real server, real generators, SotW and delta clients
-    e2e_common.run(ctx, "c01", ctx.n(12, 200))
+    e2e_common.run(ctx, "c01", ctx.n(12, 120))
     # the property-level oracle (order independence, monotonicity in keys and under merging, Forced) runs on every generated
     # case as a second line, independently of the model
     for stream in ("needs", "edsnarrow"):
@@ -757,11 +763,12 @@ MANIFEST = {
                    "protocol. Trusted: Lean kernel + {propext, Classical.choice, Quot.sound}; the hand-written model (tied by the "
                    "exhaustive table and the needs/edsnarrow streams); Spec.Affects (written from the generators, a cross-check of the "
                    "table only); pilot/pkg/xds/zz_verif_c01.go, zz_verif_e2e.go (request gate); feature flags at defaults; every "
-                   "caller of ConfigUpdate gives a reason. Two defects found and fixed in /repo (3f2fe0c, 7cce3d7); six known "
+                   "caller of ConfigUpdate gives a reason. Two defects found and fixed in /repo (3f2fe0c, 7cce3d7); eight known "
                    "findings (stale SAN after scale-to-zero, stale disable_mx in ambient interop, EDS not pushed when a Sidecar/VS "
                    "switches the service of a host, provider services outside the per-proxy dependency set, DNS ServiceEntry keeps the "
                    "cluster of its last removed workload - a fix for that one was reverted because an existing unit test pins the "
-                   "behaviour -, provider backed by a Service created / deleted while exported to nobody), each recognised by its "
+                   "behaviour -, provider backed by a Service created / deleted while exported to nobody, store ahead of event delivery, "
+                   "a connected proxy's own locality not refreshed when its inline ServiceEntry endpoint is edited), each recognised by its "
                    "CAUSE (trigger step, objects involved, field), so that other defects with the same symptom are still violations."),
     "technique": ("Lean 4 theorems over an exact model of the push-decision logic and an abstract convergence protocol with partial "
                   "rebuild + exhaustive generated decision table (decide +kernel) + differential correspondence + "
